@@ -126,6 +126,26 @@ def cascade_registry():
     return reg
 
 
+def roundtrip_registry():
+    """C08: DER export then import is the identity on valid private DSA keys (object invariant dsa_key_ok), for the OpenSSL structure and
+    for clear PKCS#8, over the exact abstract DER codec (contracts/der_exact.py) and the PROVED contract of construct; PKCS8.wrap / unwrap
+    are executed from their real source."""
+    from . import der_exact
+    from vf.pyvc.interp import BuiltinV
+    reg = key_base_registry()
+    der_exact.install_der_exact(reg)
+    kv = lambda c: 'self._key["%s"]._value' % c
+    reg.add(ClassContract(DKEY, fields={'_key': DSA_KEYDICT},
+                          valid=['spec.keys.dsa_key_ok(%s, %s, %s, %s, (%s if "x" in self._key else None))' % (kv('y'), kv('g'), kv('p'), kv('q'), kv('x'))]))
+    reg.add(registry().contracts[D + 'construct'])
+    reg.overrides['Crypto.Random.get_random_bytes'] = BuiltinV('Crypto.Random.get_random_bytes', lambda E, st, a, k: [('val', st, E.fresh_bytes('entropy'))])
+    same = ' and '.join('result._key["%s"]._value == key._key["%s"]._value' % (c, c) for c in 'ygpqx')
+    for h in ('dsa_openssl_roundtrip', 'dsa_pkcs8_roundtrip'):
+        reg.add(Contract('spec.keys_harness.' + h, params={'key': ODKEY}, requires=['"x" in key._key'], raises={}, result=ODKEY,
+                         ensures={'identity': same, 'private': '"x" in result._key'}, modifies=None))
+    return reg
+
+
 CASCADE = ['_import_openssl_private', '_import_subjectPublicKeyInfo', '_import_x509_cert', '_import_pkcs8', '_import_key_der']
 
 
@@ -133,7 +153,8 @@ def units(prop, tier):
     from vf.pyunit import pyvc_unit
     if prop == 'C08':
         return [pyvc_unit(prop, 'key.dsa.eq', registry, [DKEY + '.__eq__']),
-                pyvc_unit(prop, 'key.elgamal.eq', registry, [EKEY + '.__eq__'])]
+                pyvc_unit(prop, 'key.elgamal.eq', registry, [EKEY + '.__eq__']),
+                pyvc_unit(prop, 'key.dsa.roundtrip.der', roundtrip_registry, ['spec.keys_harness.dsa_openssl_roundtrip', 'spec.keys_harness.dsa_pkcs8_roundtrip'])]
     if prop == 'C13':
         return [pyvc_unit(prop, 'key.dsa.import_der', cascade_registry, [D + f for f in CASCADE])]
     if prop == 'C18':
@@ -142,3 +163,22 @@ def units(prop, tier):
         return [pyvc_unit(prop, 'key.dsa.construct', registry, [D + 'construct']),
                 pyvc_unit(prop, 'key.elgamal.construct', registry, [E + 'construct'])]
     return []
+
+
+# ======================================================================================================================================
+# Vacuity / strength checks (one textual mutation of lib/Crypto/PublicKey/DSA.py or ElGamal.py on a scratch copy):
+#   C08 key.dsa.eq          `other._key.get(comp, None)` -> `self._key.get(comp, None)`  exit 1  DsaKey.__eq__.ensures.semantic       (= the repaired defect D3)
+#   C08 key.dsa.eq          `_keydata = ['y','g','p','q','x']` -> without 'q'             exit 1  DsaKey.__eq__.ensures.semantic
+#   C08 key.elgamal.eq      `getattr(other, comp, None)` -> `getattr(other, 'p', None)`  exit 1  ElGamalKey.__eq__.ensures.semantic
+#   C05 key.dsa.construct   `key.y <= 0` -> `key.y < 0`                                  exit 1  construct.raises_iff.ValueError.if
+#   C05 key.dsa.construct   private consistency test `pow(g, x, p) != y` removed         exit 1  construct.raises_iff.ValueError.if
+#   C05 key.elgamal.construct `obj.x<=1` -> `obj.x<1`                                    exit 1  construct.raises_iff.ValueError.if
+#   C18 key.dsa.generate    `x = c % (q - 1) + 1` -> `c % q + 1`                         exit 1  generate.ensures.x / x_range
+#   C18 key.dsa.generate    `exact_bits=N + 64` -> `exact_bits=N`                        exit 1  generate.ensures.x
+#   C13 key.dsa.import_der  final `raise ValueError(...)` of _import_key_der -> KeyError exit 1  _import_key_der.raises_only.KeyError
+#   C08 key.dsa.roundtrip   `ints = [0, p, q, g, y, x]` -> q and g swapped               exit 1  dsa_openssl_roundtrip.ensures.identity (+ raises_only.ValueError)
+#   C08 key.dsa.roundtrip   `DerInteger(self.x)` -> `DerInteger(self.x + 1)`             exit 1  dsa_pkcs8_roundtrip.ensures.identity (+ raises_only.ValueError)
+#
+# NOT PROVED: DSA.generate with domain=None (_generate_domain: hash-driven search loops of FIPS 186-4 A.1.1.2 / A.2.3: unbounded `while` over SHA-256 outputs).
+# NOT PROVED: DsaKey.__init__ / __getattr__ on their own (they are executed inside construct / generate / the round trips); ElGamal.generate (safe-prime search
+#             and generator rejection loop); DSA.import_key's PEM / OpenSSH text branches (base64, split: bounded); SubjectPublicKeyInfo round trip (DerBitString).
